@@ -200,6 +200,14 @@ func inspect(ctx context.Context, ref *refData, md bufmodule.ModuleData, tampere
 			errOutcome, errDetail = o, what+": "+firstLine(err.Error())
 		}
 	}
+	// the ModuleData must be the one for the requesting key
+	if mk := md.ModuleKey(); mk == nil {
+		return outHitWrong, "the served ModuleData has a nil ModuleKey"
+	} else if d, err := mk.Digest(); err != nil {
+		return outHitOther, "ModuleKey().Digest(): " + firstLine(err.Error())
+	} else if d.String() != ref.digest || mk.CommitID().String() != ref.spec.Commit {
+		return outHitWrong, fmt.Sprintf("the served ModuleData belongs to key %s %s, the requesting key is %s %s", mk.CommitID(), d.String(), ref.spec.Commit, ref.digest)
+	}
 	// Call every accessor first, in the order drawn for the case: the dependency keys and the
 	// side objects before the bucket in half of the cases (callers that resolve the dependency
 	// graph look at DepModuleKeys() before or without Bucket()). Each result is then judged by
@@ -1187,6 +1195,10 @@ func TestStoreHistories(t *testing.T) {
 func TestReplay(t *testing.T) {
 	if strings.Contains(evid.ReplayTest(), "Race") {
 		replayRace(t)
+		return
+	}
+	if strings.Contains(evid.ReplayTest(), "Session") {
+		replaySession(t)
 		return
 	}
 	if strings.Contains(evid.ReplayTest(), "Commit") {
